@@ -104,6 +104,7 @@ def tla_def(d):
     names = sorted(set(d["tasks"]) | {"continue", "fail", "noop", "retry"})
     return {"name": d["name"], "vars": [[v, tla_val(k)] for v, k in d["vars"]],
             "output": [[o[0], tla_val(o[1])] for o in d["output"]], "tasks": tasks,
+            "fates": {t: list(d["fates"].get(t, ["s"])) for t in d["tasks"]},
             "rank": {n: i for i, n in enumerate(names)}}
 
 
